@@ -110,7 +110,25 @@ def r5_accumulator(ctx, cb):
         return names == {"start", "end"}
     single = lambda x: x[0] == "call" and x[1].endswith("::eq") and len(x[2]) == 2 and range_ends(x)
     multi = lambda x: x[0] == "call" and x[1].endswith("::ne") and len(x[2]) == 2 and range_ends(x)
-    g1 = L.guard_edges_multi(cb, [(is_none, True), (is_some, False), (eq_acc, True), (ne_acc, False)])
+    # pattern form (`match acc { Some(prev) if prev != t => .., _ => acc = Some(t) }`): the edge on which the slot is None, and
+    # comparisons of its payload
+    extra = []
+    for sb_, e_, targets_, otherwise_ in cb.switch_edges():
+        o_ = cb.blocks[sb_]["term"]["o"]
+        pl_ = F.op_place(o_)
+        if pl_ and len(pl_) == 1:
+            ds_ = [d for d in cb.defs().get(pl_[0], []) if d[2] == "assign"]
+            if len(ds_) == 1 and ds_[0][3]["rv"] == "discr" and len(ds_[0][3]["p"]) == 1 and ds_[0][3]["p"][0] in opt_locals:
+                extra += [(sb_, tb) for v, tb in targets_ if v == 0]
+                if not any(v == 0 for v, _ in targets_):
+                    extra.append((sb_, otherwise_))
+
+    def payload_of_opt(x):
+        return x[0] == "place" and x[1] and x[1][0] in opt_locals and any(isinstance(y, dict) and y.get("dc") == "Some" for y in x[1][1:])
+    eq_payload = lambda x: x[0] == "bin" and x[1] == "Eq" and (payload_of_opt(x[2]) or payload_of_opt(x[3]))
+    ne_payload = lambda x: x[0] == "bin" and x[1] == "Ne" and (payload_of_opt(x[2]) or payload_of_opt(x[3]))
+    g1 = L.guard_edges_multi(cb, [(is_none, True), (is_some, False), (eq_acc, True), (ne_acc, False), (eq_payload, True), (ne_payload, False)],
+                             extra_edges=extra)
     g2 = L.guard_edges_multi(cb, [(single, True), (multi, False)])
     for k, bi in enumerate(somes):
         ctx.check(bool(g1) and not L.dominated_by_cut(cb, [bi], g1, start=start), R, "accumulator:some-only-if-none-or-equal#%d" % k,
